@@ -188,7 +188,7 @@ def load_library():
         warnings.simplefilter("ignore")
         import opticomlib
         import opticomlib.typing, opticomlib.utils, opticomlib.devices  # noqa
-        import opticomlib.ppm, opticomlib.ook  # noqa
+        import opticomlib.ppm, opticomlib.ook, opticomlib.lab  # noqa
     real = os.path.realpath(opticomlib.__file__)
     if not real.startswith(os.path.realpath(REPO) + os.sep):
         raise RuntimeError(f"opticomlib imported from {real}, expected under {REPO}")
